@@ -3,6 +3,7 @@
 From Coq Require Import String.
 From Fzf Require Import Prelude Val RuneSpec BindSpec BindModel BindProofs BindRoundtrip OptionSpec OptionModel OptionProofs.
 From Fzf Require Import RuneProofs ColorSpec ColorModel ColorProofs.
+From Fzf Require Import DisplayModeProofs MarkerSpec MarkerModel MarkerProofs.
 Open Scope Z_scope.
 
 (* maskActionContents never fails and keeps the length: parseKeymap / parseActionList slice the
@@ -32,14 +33,14 @@ Print Assumptions error_is_exit2.
 
 (* Last occurrence wins: if the vector before the final occurrence `name v` of a value-taking option
    parses on its own, and no later argument names an option that writes the same fields, the fields
-   end up exactly as assigned from v — whatever came before. *)
-Theorem last_wins : forall e c xs name fs p v vals zs c1 cz,
+   end up exactly as assigned from v — whatever came before, and wherever in the numbering of words (p0) the vector starts. *)
+Theorem last_wins : forall e c p0 xs name fs p v vals zs c1 cz,
   assoc_str name opt_table = Some (KReq fs p) ->
   run_parser p v = Some vals ->
-  go e c 0 xs = Ok (Good c1) ->
+  go e c p0 0 xs = Ok (Good c1) ->
   isdir e name = false ->
   (forall a f, In a zs -> In f fs -> ~ In f (writes a)) ->
-  go e c 0 (xs ++ name :: v :: zs) = Ok (Good cz) ->
+  go e c p0 0 (xs ++ name :: v :: zs) = Ok (Good cz) ->
   forall f, In f fs -> fv cz f = fv (setfs (combine fs vals) c1) f.
 Proof. exact last_wins_proof. Qed.
 Print Assumptions last_wins.
@@ -55,6 +56,42 @@ Theorem layering : forall e file envw argv cfg,
 Proof. exact layering_proof. Qed.
 Print Assumptions layering.
 
+(* Display mode.  --tmux (popup) and --height (inline window) override each other; the implementation decides by comparing
+   the positions at which the two were read, numbered through options file, $FZF_DEFAULT_OPTS and command line
+   (popup_impl: Tmux != nil && Tmux.index >= Height.index).  For EVERY accepted options file, environment and command line
+   this is the documented rule popup_spec (OptionSpec: the later of the two decides; --no-tmux / --no-height withdraw;
+   the command line is later than the environment, which is later than the options file) — a rule that mentions no positions. *)
+Theorem display_mode_later_wins : forall e file envw argv cfg,
+  parse_all e file envw argv = Ok (Good cfg) -> popup_impl cfg = popup_spec (fv cfg).
+Proof. exact display_mode_proof. Qed.
+Print Assumptions display_mode_later_wins.
+
+(* ... and the rule itself says "later wins": after the last --tmux=V (nothing behind it that names --tmux, --no-tmux,
+   --height or --no-height) the popup starts, configured by V, whatever came before in this or an earlier source;
+   the symmetric statement for --height is last_wins above (--height writes F_HEIGHT and sets the rule's boolean). *)
+Theorem tmux_last_wins : forall e c p0 xs v t zs c1 cz,
+  parse_tmux v = Some t ->
+  go e c p0 0 xs = Ok (Good c1) ->
+  isdir e (s_tmux_eq ++ v) = false ->
+  (forall a f, In a zs -> In f [F_TMUX; F_HAFTER] -> ~ In f (writes a)) ->
+  go e c p0 0 (xs ++ (s_tmux_eq ++ v) :: zs) = Ok (Good cz) ->
+  fv cz F_TMUX = vsome t /\ fv cz F_HAFTER = Fv /\ popup_spec (fv cz) = true.
+Proof. exact tmux_last_wins_proof. Qed.
+Print Assumptions tmux_last_wins.
+
+(* non-vacuity: --tmux in the options file, --height on the command line, something in the environment: inline;
+   the other way round: popup with the geometry given on the command line; positions 2 against 5 *)
+Example c17_display_mode_nonvacuous :
+  (exists c, parse_all env0 [b "--cycle"; b "--reverse"; b "--tmux"; b "center,60%"] [b "--ansi"] [b "--height"; b "40%"] = Ok (Good c)
+     /\ fv c F_TMUXIDX = VI 2 /\ fv c F_HEIGHTIDX = VI 5 /\ popup_impl c = false /\ popup_spec (fv c) = false) /\
+  (exists c, parse_all env0 [b "--cycle"; b "--no-mouse"; b "--height"; b "40%"] [b "--ansi"] [b "--tmux"; b "left,30%"] = Ok (Good c)
+     /\ fv c F_HEIGHTIDX = VI 2 /\ fv c F_TMUXIDX = VI 5 /\ popup_impl c = true /\
+        fv c F_TMUX = vsome (mk_tmux P_LEFT (sz 30 true) (sz 100 true) false)) /\
+  (exists c, parse_all env0 [] [b "--tmux"] [b "--height=10"; b "--no-height"] = Ok (Good c) /\ popup_impl c = true /\ popup_spec (fv c) = true) /\
+  parse_tmux (b "bottom,80%,40%,border-native") = Some (mk_tmux P_DOWN (sz 80 true) (sz 40 true) true) /\
+  parse_tmux (b "70%") = Some (mk_tmux P_CENTER (sz 70 true) (sz 70 true) false) /\ parse_tmux (b "left,101%") = None.
+Proof. repeat split; try (eexists; vm_compute; repeat split); vm_compute; reflexivity. Qed.
+
 (* FINDING: the exception is real.  historyMax is a local of parseOptions re-initialised for every
    vector, so `FZF_DEFAULT_OPTS=--history-size=5 fzf --history h` keeps 1000 entries while
    `fzf --history-size=5 --history h` keeps 5. *)
@@ -69,9 +106,9 @@ Print Assumptions layering_history_size_refuted.
 Example c17_last_wins_nonvacuous :
   let q := b "--query" in
   assoc_str q opt_table = Some (KReq [F_QUERY] PStr) /\
-  go env0 default_cfg 0 [q; b "a"; b "--multi"] = Ok (Good (setf F_MULTI (VI MAX_MULTI) (setf F_QUERY (vstr (b "a")) default_cfg)))
+  go env0 default_cfg 0 0 [q; b "a"; b "--multi"] = Ok (Good (setf F_MULTI (VI MAX_MULTI) (setf F_QUERY (vstr (b "a")) default_cfg)))
   /\ (forall a f, In a [b "--tac"; b "-m"; b "3"] -> In f [F_QUERY] -> ~ In f (writes a))
-  /\ exists cz, go env0 default_cfg 0 ([q; b "a"; b "--multi"] ++ q :: b "zz" :: [b "--tac"; b "-m"; b "3"]) = Ok (Good cz)
+  /\ exists cz, go env0 default_cfg 0 0 ([q; b "a"; b "--multi"] ++ q :: b "zz" :: [b "--tac"; b "-m"; b "3"]) = Ok (Good cz)
                 /\ fv cz F_QUERY = vstr (b "zz") /\ fv cz F_MULTI = VI 3.
 Proof.
   cbn zeta. split; [reflexivity|]. split; [reflexivity|]. split.
@@ -245,3 +282,44 @@ Example c17_color_nonvacuous :
   leaves (b "fg") [b "hl"; b "red"] /\
   color_opts bases e [(0, b "fg:bold"); (1, []); (0, b "hl:bold"); (0, [])] = Ok (Good e).
 Proof. cbn zeta. repeat split; vm_compute; reflexivity. Qed.
+
+(* ------------------------------------------------------------------ --marker-multi-line *)
+
+(* for EVERY value (any sequence of grapheme clusters, whatever their widths — zero-width clusters at the end included)
+   the reading of --marker-multi-line ends with three elements or a user error: result[idx] is never out of range *)
+Theorem marker_total : forall cs, exists o, marker_multi cs = Ok o.
+Proof. exact marker_total_proof. Qed.
+Print Assumptions marker_total.
+
+(* accepted exactly for the documented widths (empty, 3 or 6 columns) *)
+Theorem marker_accept : forall cs,
+  (marker_width_ok cs = true -> exists parts, marker_multi cs = Ok (Good parts)) /\
+  (marker_width_ok cs = false -> marker_multi cs = Ok (Bad E_MARKER_WIDTH)).
+Proof. exact marker_accept_proof. Qed.
+Print Assumptions marker_accept.
+
+(* the three elements are consecutive pieces of the value, in order; what is left over has no width *)
+Theorem marker_reading_ok : forall cs parts, marker_multi cs = Ok (Good parts) -> marker_reading cs parts.
+Proof. exact marker_reading_proof. Qed.
+Print Assumptions marker_reading_ok.
+
+(* "3 elements for top, middle, and bottom": exactly three visible clusters of 1 (or of 2) columns each — the default ╻┃╹ —
+   are the three elements, each taking the zero-width clusters in front of it; zero-width clusters after the third are left out *)
+Theorem marker_three_elements : forall u z0 z1 z2 z3 v0 v1 v2,
+  (u = 1 \/ u = 2)%nat -> zero_width z0 -> zero_width z1 -> zero_width z2 -> zero_width z3 ->
+  snd v0 = u -> snd v1 = u -> snd v2 = u ->
+  marker_multi (z0 ++ v0 :: z1 ++ v1 :: z2 ++ v2 :: z3) = Ok (Good [z0 ++ [v0]; z1 ++ [v1]; z2 ++ [v2]]).
+Proof. exact marker_three_elements_proof. Qed.
+Print Assumptions marker_three_elements.
+
+Example c17_marker_nonvacuous :
+  let a := (b "a", 1%nat) in let z := ([226; 128; 139], 0%nat) in let w := ([234; 176; 128], 2%nat) in
+  marker_multi [a; a; a; z] = Ok (Good [[a]; [a]; [a]]) /\
+  marker_multi [z; a; a; z; a; z; z] = Ok (Good [[z; a]; [a]; [z; a]]) /\
+  marker_multi [w; a] = Ok (Good [[w]; [a]; []]) /\
+  marker_multi [a; a] = Ok (Bad E_MARKER_WIDTH) /\ marker_multi [] = Ok (Good [[]; []; []]) /\
+  marker_reading [a; a; a; z] [[a]; [a]; [a]].
+Proof.
+  cbn zeta. repeat split; try (vm_compute; reflexivity).
+  exists [([226; 128; 139], 0%nat)]. split; [reflexivity|repeat constructor].
+Qed.
